@@ -163,6 +163,8 @@ fn translate_position(input: &[u8], index: usize) -> (usize, usize) {
 
     let column = std::str::from_utf8(&input[line_start..=index])
         .map(|s| s.chars().count() - 1)
+        // `index` may be the first byte of a multi-byte character
+        .or_else(|_| std::str::from_utf8(&input[line_start..index]).map(|s| s.chars().count()))
         .unwrap_or_else(|_| index - line_start);
     let column = column + column_offset;
 
